@@ -805,7 +805,9 @@ func (s *State) Commit(repo gitstore.Storer, commitMessage string, createRSLEntr
 				return repo.ResetDueToError(err, PolicyStagingRef, originalCommitID)
 			}
 
-			return err
+			// The reference did not exist before, remove it again so that it
+			// is not left without a corresponding RSL entry
+			return errors.Join(err, repo.DeleteReference(PolicyStagingRef))
 		}
 	}
 
@@ -902,7 +904,9 @@ func Apply(ctx context.Context, repo gitstore.Storer, signRSLEntry bool) error {
 			return repo.ResetDueToError(err, PolicyRef, policyTip)
 		}
 
-		return err
+		// The reference did not exist before, remove it again so that it is
+		// not left without a corresponding RSL entry
+		return errors.Join(err, repo.DeleteReference(PolicyRef))
 	}
 
 	return nil
